@@ -19,7 +19,7 @@ META = {
                    "the dense identity for every d. Plus name resolution, definite assignment and the dtype rule for constants.",
     "assumptions": ["exact arithmetic; floating-point rounding of the products is outside the claim",
                     "scalar operands are treated as real when conjugated", "torch.einsum / reshape / pad semantics as modelled in ttsa/e5/net.py"],
-    "floors": {"E5-CHAIN": 300, "UNRES": 100, "DEFASSIGN": 40, "DTYPE": 4},
+    "floors": {"E5-CHAIN": 300, "UNRES": 100, "DEFASSIGN": 30, "DTYPE": 4},
 }
 ANCHORS = ["_tt_base.TT.__add__", "_tt_base.TT.__sub__", "_tt_base.TT.__rsub__", "_tt_base.TT.__mul__", "_tt_base.TT.__truediv__",
            "_tt_base.TT.__neg__", "_tt_base.TT.__pow__", "_tt_base.TT.__rpow__", "_tt_base.TT.full", "_extras.kron",
